@@ -115,6 +115,8 @@ if __name__ == "__main__":
                 for p in FIX_PROPS.get(os.path.basename(f), []):
                     if p not in props:
                         props.append(p)
+            if any(k in subj for k in ("GroupBy.groups", "key_count", "head/tail/nth could return a view")):
+                props = ["C19"]
             props = [p for p in props if os.path.exists(os.path.join(ROOT, "gbsim", p.lower() + ".py"))]
             if len(a) > 1:
                 props = [p for p in props if p in a[1].split(",")]
